@@ -264,9 +264,13 @@ Definition res_eqb (a b : err + list Z) : bool :=
 Definition oc_eqb (a b : option (list Z * nat)) : bool :=
   opt_eqb (fun u v => zl_eqb (fst u) (fst v) && Nat.eqb (snd u) (snd v)) a b.
 
+Fixpoint nondecr (l : list Q) : bool :=
+  match l with x :: ((y :: _) as t) => Qle_bool x y && nondecr t | _ => true end.
+
 (** one stochastic-universal-sampling case: the binary64 model reproduces the implementation's output, the
     requested upper bound of the uniform draw is the model's pointer distance, the order handed over by the
-    implementation is a valid descending order, and (when [exact], i.e. no binary64 operation rounds) the
+    implementation is a valid descending order, the binary64 pointers and cumulative sums are non-decreasing (the
+    hypotheses of the general counting theorem), and (when [exact], i.e. no binary64 operation rounds) the
     ideal model gives the same selection *)
 Definition agree_sus (p : list float) (order : list nat) (k : nat) (off : float) (perm : list nat) (a : list Z)
     (exact : bool) (impl_high : float) (impl_out : option (list Z)) : bool :=
@@ -275,4 +279,5 @@ Definition agree_sus (p : list float) (order : list nat) (k : nat) (off : float)
   order_ok pq order &&
   ozl_eqb (option_map (take_labels a) (sus_f p order k off perm)) impl_out &&
   PrimFloat.eqb (sus_dist_f (fsum p) k) impl_high &&
+  nondecr (map f2q (sus_ptrs_f (fsum p) k off)) && nondecr (map f2q (fcumsum (gather 0%float p order))) &&
   (if exact then ozl_eqb (option_map (take_labels a) (sus_q pq order k (f2q off) perm)) impl_out else true).
